@@ -299,6 +299,11 @@ Definition agrees (en : env) (m : mstate) : Prop :=
 (* ---- straight-line statements ---- *)
 Inductive target := TLoc (i : nat) | TPar (i : nat) | TGlob (n : nat) | TProp (n : nat)
   | TByName (n : nat).     (* set the <names[n]> = ... : the by-name write 60 n, same opcode class as the property write 50 n *)
+(* put ... into / after / before *)
+Inductive pmode := PInto | PAfter | PBefore.
+Definition pcode (md : pmode) : Z := match md with PInto => 1 | PAfter => 2 | PBefore => 3 end.
+Definition pname (md : pmode) : string := match md with PInto => "into" | PAfter => "after" | PBefore => "before" end.
+
 Inductive stmt :=
 | SSet (t : target) (e : expr)                 (* set t = e *)
 | SCallS (f : nat) (args : list expr)          (* external handler, statement position *)
@@ -307,7 +312,9 @@ Inductive stmt :=
 | SSetThe (k : thekind) (i : nat) (v : expr)   (* set the <special / system property i> to v (5D 00 / 5D 07) *)
 | SSetAcc (n : nat) (o v : expr)               (* set the <names[n]> of o to v (62 n) *)
 | SSetMenu (pid : nat) (it mn v : expr)        (* set the <property pid> of menuItem it of menu mn to v (5D 03) *)
-| SExit.                                       (* exit, written out (01; the compiler appends its own at the end of the handler) *)
+| SExit                                        (* exit, written out (01; the compiler appends its own at the end of the handler) *)
+| SPutField (md : pmode) (f v : expr)           (* put v into / after / before field f (59 16 / 26 / 36) *)
+| SPutLoc (md : pmode) (i : nat) (v : expr).    (* put v into / after / before <local variable i> (59 15 / 25 / 35) *)
 
 Definition compile_store (t : target) : bytes :=
   match t with
@@ -327,6 +334,8 @@ Definition compile_s (s : stmt) : bytes :=
   | SSetAcc n o v => compile_e o ++ compile_e v ++ [b 98; b (Z.of_nat n)]
   | SSetMenu pid it mn v => compile_e it ++ compile_e mn ++ compile_e v ++ compile_int (Z.of_nat pid) ++ [b 93; b 3]
   | SExit => [b 1]
+  | SPutField md f v => compile_e v ++ compile_e f ++ [b 89; b (16 * pcode md + 6)]
+  | SPutLoc md i v => compile_e v ++ compile_int (scaled i) ++ [b 89; b (16 * pcode md + 5)]
   end.
 Definition ninstr_s (s : stmt) : nat :=
   match s with
@@ -337,6 +346,8 @@ Definition ninstr_s (s : stmt) : nat :=
   | SSetAcc _ o v => (ninstr o + (ninstr v + 1))%nat
   | SSetMenu _ it mn v => (ninstr it + (ninstr mn + (ninstr v + 2)))%nat
   | SExit => 1%nat
+  | SPutField _ f v => (ninstr v + (ninstr f + 1))%nat
+  | SPutLoc _ _ v => (ninstr v + 2)%nat
   end.
 
 (* the declared properties of the script, as the parser's context holds them *)
@@ -383,6 +394,13 @@ Definition reify_s (en : env) (props : list string) (pc : Z) (s : stmt) : node :
       (Accessor ps (MenuItemAcc ps (ObjRef KMenu (name_of mnode) ps mnode) (ObjRef KMenuItem (name_of i) ps i)) (nth pid MENUITEM_PROPERTIES ""))
       (reify_e en pv v))
   | SExit => Stmt pc (Call "exit" pc None true false false)
+  | SPutField md f v =>
+    let pf := pc + zlen (compile_e v) in
+    let ps := pf + zlen (compile_e f) in
+    Stmt ps (SpAssign ps (Unary "field" ps (reify_e en pf f)) (reify_e en pc v) (pname md))
+  | SPutLoc md i v =>
+    let ps := pc + zlen (compile_e v) + zlen (compile_int (scaled i)) in
+    Stmt ps (SpAssign ps (nth i (e_locals en) (Leaf KLocal "" 0 true)) (reify_e en pc v) (pname md))
   end.
 
 Definition globals_s (en : env) (pc : Z) (s : stmt) : list node :=
@@ -395,6 +413,8 @@ Definition globals_s (en : env) (pc : Z) (s : stmt) : list node :=
   | SSetMenu _ it mn v =>
     globals_e en pc it ++ globals_e en (pc + zlen (compile_e it)) mn ++ globals_e en (pc + zlen (compile_e it) + zlen (compile_e mn)) v
   | SExit => []
+  | SPutField _ f v => globals_e en pc v ++ globals_e en (pc + zlen (compile_e v)) f
+  | SPutLoc _ _ v => globals_e en pc v
   end.
 
 Definition wf_target (en : env) (t : target) : Prop :=
@@ -413,6 +433,8 @@ Definition wf_s (en : env) (s : stmt) : Prop :=
   | SSetAcc n o v => (n < List.length (e_names en))%nat /\ Z.of_nat n < 256 /\ wf_e en o /\ wf_e en v
   | SSetMenu pid it mn v => (pid < List.length MENUITEM_PROPERTIES)%nat /\ wf_e en it /\ wf_e en mn /\ wf_e en v
   | SExit => True
+  | SPutField _ f v => wf_e en f /\ wf_e en v
+  | SPutLoc _ i v => (i < List.length (e_locals en))%nat /\ scaled i < 256 /\ wf_e en v
   end.
 
 (* a straight-line handler: its statements, then the handler's exit opcode *)
